@@ -50,3 +50,29 @@ Proof.
     cbn [isgap] in *. rewrite Hb in Hf. destruct (Hf eq_refl) as (_ & [[? ?]|[? ?]]); [lia|assumption].
   - intros Hb. exact (Inv_flag_capacity L _ _ _ _ HI Hg Hb).
 Qed.
+
+(* ---------- C04 ---------- *)
+From AN Require Import Proofs.SrvLog.
+
+Lemma rr_window (L : Z) W kinds os post seg pre :
+  (1 <= L)%Z -> 1 <= W <= 512 ->
+  forallb nf_op os = true -> forallb (tok_ok (length kinds)) os = true ->
+  trace (run L (init W kinds) os) = post ++ seg ++ pre ->
+  forallb (fun e => negb (is_skip e)) seg = true -> length (dtargets seg) <= W ->
+  NoDup (dtargets seg) /\
+  exists cur, cur < W /\ dtargets seg = map (fun i => (cur + i) mod W) (seq 0 (length (dtargets seg))).
+Proof.
+  intros HL HW Hnf Htok Htr Hns Hlen.
+  destruct (reachable_tinv L HL W kinds os HW Hnf Htok) as [[T1 _] _].
+  eapply window_distinct; try eassumption. lia.
+Qed.
+
+Lemma log_events_ok (L : Z) W kinds os e :
+  (1 <= L)%Z -> 1 <= W <= 512 ->
+  forallb nf_op os = true -> forallb (tok_ok (length kinds)) os = true ->
+  In e (trace (run L (init W kinds) os)) -> dispatch_ok L e.
+Proof.
+  intros HL HW Hnf Htok Hin.
+  destruct (reachable_tinv L HL W kinds os HW Hnf Htok) as [[_ T2] _].
+  rewrite Forall_forall in T2. now apply T2.
+Qed.
